@@ -250,18 +250,21 @@ def pnTgOther (hasData : Bool) (r : Nat → Py Bytes) : Py Bytes :=
   pnMapT ((if hasData then tgResponseToInitiator (r 0) else pure ()) >>= fun _ =>
           tgGetInitiatorCommand (r (if hasData then 1 else 0)))
 
+/-- `fifo_data = bytearray(read_register(*fifo_read))`, length check -/
+def fifoData (fam : Fam) (rData : Py Bytes) : Py Bytes :=
+  readRegister fam rData >>= fun v =>
+  let fifo := match v with
+    | .one k => List.replicate k 0   -- `bytearray(int)`
+    | .many l => l
+  idxN fifo 0 >>= fun l0 =>
+  if l0 ≠ fifo.length then throw .transmission else pure fifo
+
 /-- FIFO level and FIFO data reads of `_tt3_send_rsp_recv_cmd` -/
 def fifoRead (fam : Fam) (rLevel rData : Py Bytes) : Py Bytes :=
   readRegister fam rLevel >>= fun lv =>
   match lv with
   | .many _ => throw .type_          -- `list * list`
-  | .one _ =>
-    readRegister fam rData >>= fun v =>
-    let fifo := match v with
-      | .one k => List.replicate k 0   -- `bytearray(int)`
-      | .many l => l
-    idxN fifo 0 >>= fun l0 =>
-    if l0 ≠ fifo.length then throw .transmission else pure fifo
+  | .one _ => fifoData fam rData
 
 /-- the polling loop; one list element per iteration the timeout allows -/
 def tt3Poll (fam : Fam) (r : Nat → Py Bytes) : List (Py Bytes) → Py Bytes
